@@ -1158,6 +1158,8 @@ class Checker:
         if s["lib"].lower() != "work":
             # external entity: nothing in the text to check the association against; actuals are still typed
             for f, a in s["ports"] + s["generics"]:
+                if isinstance(f, tuple):
+                    f = f[2]
                 self.ident(f, line, "formal", False)
                 saved = len(self.issues)
                 self.ty(a, region, None, line)
@@ -1178,6 +1180,10 @@ class Checker:
         seen = set()
         for f, actual in s["ports"]:
             self.stats["assocs"] += 1
+            fconv = None
+            if isinstance(f, tuple):
+                # ('conv', typemark, formal): type conversion on the formal side `unsigned(y) => actual`
+                fconv, f = f[1], f[2]
             self.ident(f, line, "formal", False)
             fl = f.lower()
             if fl not in formals:
@@ -1192,6 +1198,22 @@ class Checker:
             unit = self.unit
             fty = self.mk_type(p["type"], sub_region, line, f"formal {f}")
             del self.issues[saved:]  # reported where the entity itself is checked
+            if fconv is not None:
+                # the association is typed with the CONVERTED formal; only legal for closely related vector types
+                # and not on a pure input (nothing flows from the formal to the actual there)
+                low = fconv.lower()
+                self.note_predef_use(low, "type")
+                if region.lookup(fconv):
+                    self.err("hides-predefined", f"conversion {fconv}(..) on formal {f} denotes a user declaration", line, f"{low} call")
+                elif low not in KINDS:
+                    self.err("type", f"conversion {fconv}(..) on the formal {f} is not a vector type conversion", line, "formal conversion function")
+                elif fty[0] == "vec":
+                    if p["dir"] == "in":
+                        self.err("type", f"type conversion on the input formal {f}", line, "conversion on input formal")
+                    fty = VEC(KINDS[low], fty[2])
+                elif fty[0] != "err":
+                    self.err("type", f"conversion {fconv}(..) applied to the formal {f} of type {show(fty)}", line, f"{low}({fty[0]}) formal")
+                    fty = ERR
             if p["dir"] == "in":
                 at = self.ty(actual, region, fty, line)
                 self.assign_compat(fty, at, line, f"formal {f} of {s['label']}")
